@@ -217,3 +217,46 @@ def is_nan_free(v):
     if isinstance(v, dict):
         return all(is_nan_free(k) and is_nan_free(x) for k, x in v.items())
     return True
+
+
+def dedupe(r):
+    """Recipe with the duplicates Python would merge removed (dict: first key position, last value;
+    set: first occurrence), so that a walk over the recipe equals a walk over the built value.
+    Keys/elements wrapped in comment objects are distinct objects and never merge."""
+    t = r[0]
+    if t in ('cmt', 'tcmt'):
+        return [t, r[1], dedupe(r[2])]
+    if t in ('list', 'tuple'):
+        return [t, [dedupe(x) for x in r[1]]]
+    if t in ('set', 'fset'):
+        seen = {}
+        out = []
+        for x in r[1]:
+            x = dedupe(x)
+            if x[0] in ('cmt', 'tcmt'):
+                out.append(x)
+                continue
+            k = build(x)
+            if k in seen:
+                continue
+            seen[k] = True
+            out.append(x)
+        return [t, out]
+    if t == 'dict':
+        pos = {}
+        out = []
+        for k, v in r[1]:
+            k, v = dedupe(k), dedupe(v)
+            if k[0] in ('cmt', 'tcmt'):
+                out.append([k, v])
+                continue
+            bk = build(k)
+            if bk in pos:
+                out[pos[bk]][1] = v
+            else:
+                pos[bk] = len(out)
+                out.append([k, v])
+        return [t, out]
+    if t == 'call':
+        return ['call', r[1], [dedupe(a) for a in r[2]], [[k, dedupe(v)] for k, v in r[3]]]
+    return r
